@@ -263,6 +263,17 @@ impl HipEstimator {
         }
     }
 
+    /// The three ingredients of the out-of-order estimate, for the external verification harness
+    /// (feature `verif-hooks`): `[raw HLL estimate, bitmap (linear counting) estimate, composite estimate]`.
+    #[cfg(feature = "verif-hooks")]
+    pub fn verif_parts(&self, lg_config_k: u8, cur_min: u8, num_at_cur_min: u32) -> [f64; 3] {
+        [
+            self.get_raw_estimate(lg_config_k),
+            self.get_bitmap_estimate(lg_config_k, cur_min, num_at_cur_min),
+            self.get_composite_estimate(lg_config_k, cur_min, num_at_cur_min),
+        ]
+    }
+
     /// Get the HIP accumulator value
     pub fn hip_accum(&self) -> f64 {
         self.hip_accum
